@@ -1354,9 +1354,13 @@ def _range_guarded(prog, fi, call, data):
                 cands.append(s.value)
             # guard applied to a source the data is built from
     srcs = set(names)
-    for s in walk_function(fi.node):
-        if isinstance(s, ast.Assign) and any(isinstance(t, ast.Name) and t.id in srcs for t in s.targets):
-            srcs |= names_in(s.value)
+    for _ in range(6):                  # transitive closure over the locals the data is built from
+        before = len(srcs)
+        for s in walk_function(fi.node):
+            if isinstance(s, ast.Assign) and any(isinstance(t, ast.Name) and t.id in srcs for t in s.targets):
+                srcs |= names_in(s.value)
+        if len(srcs) == before:
+            break
     for s in walk_function(fi.node):
         if isinstance(s, ast.Expr) and isinstance(s.value, ast.Call) and (srcs & names_in(s.value)):
             cands.append(s.value)
